@@ -59,6 +59,61 @@ def make_filter(kind, cb):
     return F.aggregate(cb, seconds=float(kind[1]))
 
 
+async def _run_overlap(kinds, t0, calls, release_after):
+    """The same calls, but OVERLAPPING: the final callback suspends (a slow user callback), every call is started as its own task
+    (as EventManager.dispatch_nowait does with the dispatches of one event) and runs until it suspends or returns; the callbacks
+    are released after the calls whose index is in `release_after`, and at the end."""
+    from pyplumio import filters as F
+    gate = [asyncio.Event()]
+    outs = [[] for _ in calls]
+    which = {}
+
+    async def cb(value):
+        i = which.get(asyncio.current_task(), -1)
+        if 0 <= i < len(outs):
+            outs[i].append(from_py(value))
+        await gate[0].wait()
+
+    old = F.time.monotonic
+    F.time.monotonic = lambda: CLOCK[0]
+    try:
+        CLOCK[0] = float(t0)
+        f = cb
+        for k in reversed(kinds):
+            f = make_filter(k, f)
+        tasks = []
+
+        async def release():
+            g = gate[0]
+            gate[0] = asyncio.Event()
+            g.set()
+            for _ in range(6):
+                await asyncio.sleep(0)
+        for i, (t, v) in enumerate(calls):
+            CLOCK[0] = float(t)
+            task = asyncio.ensure_future(f(to_py(v)))
+            which[task] = i
+            tasks.append(task)
+            for _ in range(4):
+                await asyncio.sleep(0)
+            if i in release_after:
+                await release()
+        while any(not t.done() for t in tasks):
+            await release()
+        res = []
+        for i, t in enumerate(tasks):
+            if t.exception() is not None:
+                res.append(["exception", type(t.exception()).__name__])
+            else:
+                res.append([outs[i][0]] if len(outs[i]) == 1 else ([] if not outs[i] else ["multiple", len(outs[i])]))
+        base = getattr(f, "_value", None)
+        base = [] if base is None or (isinstance(base, str) and base == "undefined") else [from_py(base)]
+        s = getattr(f, "_sum", 0.0)
+        return [res, base, int(s * SCALE) if s * SCALE == int(s * SCALE) else ["inexact", repr(s)]]
+    finally:
+        F.time.monotonic = old
+
+
 async def _run(kinds, t0, calls, how=None):
     from pyplumio import filters as F
     delivered = []
@@ -198,6 +253,10 @@ class C20(Prop):
                 if vt == "live":
                     case["how"] = [rng.choice(["update", "set"]) for _ in calls]
                 cases.append(case)
+                if vt in ("num", "str", "edge") and calls and rng.random() < 0.4:
+                    # the same history with OVERLAPPING calls: a slow final callback, each call a task of its own
+                    cases.append(dict(case, kind=case["kind"] + ":overlap",
+                                      release_after=sorted(i for i in range(len(calls)) if rng.random() < 0.25)))
             # aggregate fed an occasional string or list among the numbers: such a call is refused (ValueError) and is no input --
             # what has been collected, the period and everything delivered later are those of the numeric calls alone
             calls, t = [], rng.randrange(0, 5)
@@ -216,6 +275,8 @@ class C20(Prop):
         return [x for x in c["calls"] if x[1][0] == 0] if c["kind"] == "aggregate:mixed" else c["calls"]
 
     def run_impl(self, c):
+        if c["kind"].endswith(":overlap"):
+            return vloop.run(_run_overlap, c["kinds"], c["t0"], c["calls"], c["release_after"])
         b = vloop.run(_run, c["kinds"], c["t0"], c["calls"], c.get("how"))
         if c["kind"] == "aggregate:mixed":
             outs = []
@@ -269,6 +330,8 @@ class C20(Prop):
         # chains: the inner filter must see exactly the deliveries of the outer one (C20_chain): checked by correspondence
         # with frun2, and here by re-running the two filters separately on the implementation
         for i, (c, b) in enumerate(zip(cases, behaviours)):
+            if len(c["kinds"]) == 2 and res[i] and c["kind"].endswith(":overlap"):
+                continue            # (chains under overlap are compared with the model of the chain: correspondence)
             if len(c["kinds"]) == 2 and res[i]:
                 o1 = vloop.run(_run, c["kinds"][:1], c["t0"], c["calls"])[0]
                 delivered = [[t, o[0]] for (t, _), o in zip(c["calls"], o1) if o]
